@@ -22,7 +22,7 @@ ASSUMPTIONS = [
 ]
 BOUNDS = {
     "quick": "1-2 concurrent invocations x 12 endpoint behaviours x receive_progress on/off x INTERRUPT yes/no (mode free), free request ids (0..2^53, distinct); 5 transports x {serialisable, un-serialisable, oversize vs a free limit} x {value, raised error}",
-    "thorough": "3 concurrent invocations, interrupt at every position",
+    "thorough": "as quick plus all 144 ordered pairs of endpoint behaviours with and without INTERRUPT, and 80 triples of concurrent invocations (pending x {value, error, progress, pending} x pending) with INTERRUPT",
 }
 EXPECT_COVERS = ["reply:yield", "reply:error", "reply:progress", "interrupt", "t:invalid_payload", "t:payload_size_exceeded", "t:sent"]
 BUDGET = {"quick": dict(wall_s=300, max_paths=30000, diff_samples=4), "thorough": dict(wall_s=2400, max_paths=300000)}
@@ -274,7 +274,18 @@ def units(tier):
                 U.append(("inv/%s/%s/%s" % ("+".join(behs), "prog" if rp else "-", "intr" if intr else "-"), "invoke",
                           dict(behs=behs, recv_progress=rp, interrupt=intr)))
     if not q:
-        U.append(("inv/3", "invoke", dict(behs=["pending-resolve", "pending-interrupt", "value"], recv_progress=True, interrupt=False)))
+        import itertools
+        seen = {tuple(b) for b in singles + pairs}
+        for a, b in itertools.product(BEHAVIOURS, BEHAVIOURS):
+            if (a, b) in seen:
+                continue
+            for intr in (False, True):
+                if intr and not (a.startswith("pending-") or b.startswith("pending-")):
+                    continue
+                U.append(("inv2/%s+%s/%s" % (a, b, "intr" if intr else "-"), "invoke", dict(behs=[a, b], recv_progress=True, interrupt=intr)))
+        pend = [b for b in BEHAVIOURS if b.startswith("pending-")]
+        for a, b, c in itertools.product(pend, ["value", "apperror", "progress", "pending-resolve"], pend + ["raise-in-async"]):
+            U.append(("inv3/%s+%s+%s" % (a, b, c), "invoke", dict(behs=[a, b, c], recv_progress=True, interrupt=True)))
     for kind in ("tw-ws-client", "tw-ws-server", "tw-raw-client", "tw-raw-server", "aio-raw-client", "aio-raw-server"):
         for pk in ("ok", "unserialisable", "oversize"):
             for via in ("return", "raise"):
